@@ -94,7 +94,7 @@ var ruleRuneWrite = &Rule{
 			}
 		}
 		out.Counts["text_buffer_writes"] = nw
-		out.Floors["text_buffer_writes"] = 5
+		out.Floors["text_buffer_writes"] = 1
 		out.Counts["byte_writes_examined"] = nb
 		if len(out.Obs) == 0 {
 			out.ok("token text is written rune by rune", "-", "", fmt.Sprintf("%d buffer writes in package parser, none of them a byte write", nw))
